@@ -50,9 +50,28 @@ var c29Specs = []lockSpec{
 func c29(p *core.Program, r *core.Report) {
 	r.Rule("R1", "lock discipline per guarded type (fragment, Field, view, Index, Holder, rankCache): every Lock/RLock is released on every exit; every access to a field the mutex guards happens with the mutex held, where a helper that accesses them unlocked (the unprotected* convention) must have the lock supplied by every caller up to the entry point; guarded fields are written only under the exclusive lock; a method that takes the lock is never called on the same object while it is held")
 	r.Rule("R2", "handed-out slices are never modified in place: a guarded slice field that a method returns to its callers (who read it after the lock is released) is only ever replaced by a freshly allocated slice — no element store, no sort, no append or re-slice that reuses its backing array")
+	r.Rule("R3", "reads that write: a roaring method that stores into its own receiver (computed over package roaring: direct stores through the receiver, or calls of such methods on receiver-rooted expressions, interface calls resolved to both container stores; (*bTreeContainers).Get with its lookaside is the anchor) counts as a write of the guarded field it is called on, so R1 demands the exclusive lock for it -- reported under R1 as a write under the read lock")
 	r.NotDecided = "linearizability and data-race freedom in the happens-before sense for all schedules (dynamic/model-checking questions); fields outside the frozen guarded-by tables; lock-free structures"
 	total := 0
+	var rw *recvWriters
+	if rp := p.Pkg("roaring"); rp != nil {
+		rw = computeRecvWriters(p, rp)
+		// the anchor of the rule: the b-tree lookaside
+		n := 0
+		for fn := range rw.why {
+			if recvNamed(fn, "bTreeContainers") && fn.Name() == "Get" {
+				n++
+			}
+		}
+		r.Floor("C29/R3 (*bTreeContainers).Get recognised as storing into its receiver", n, 1)
+		r.Floor("C29/R3 roaring methods that store into their receiver", len(rw.why), 20)
+	} else {
+		r.Undecide("R3", "package roaring", "", "not loaded")
+	}
 	for _, spec := range c29Specs {
+		if rw != nil {
+			spec.mutCallee = rw.writes
+		}
 		la := newLockAnalysis(p, spec)
 		if la == nil {
 			r.Undecide("R1", spec.typ, "", "package not loaded")
